@@ -59,6 +59,17 @@ pub fn violation_of(s: &St, probes: &[(DnaString, Vec<u8>)], serde_check: bool) 
     need!(d.iter().collect::<Vec<u8>>() == *m && d.to_bytes() == *m, "iter/to_bytes");
     need!((&*d).into_iter().collect::<Vec<u8>>() == *m, "IntoIterator");
     need!(d.to_ascii_vec() == asc, "to_ascii_vec");
+    if m.len() <= 70 {
+        if let Some(e) = vglue::iterator_laws("DnaString::iter", &|| d.iter(), m) {
+            return Some(e);
+        }
+        if let Some(e) = vglue::iterator_laws("(&DnaString).into_iter", &|| (&*d).into_iter(), m) {
+            return Some(e);
+        }
+        if let Some(e) = vglue::iterator_laws("Mer::iter(DnaString)", &|| Mer::iter(d), m) {
+            return Some(e);
+        }
+    }
     need!(d.to_string().as_bytes() == &asc[..] && format!("{:?}", d).as_bytes() == &asc[..], "Display/Debug");
     need!(*d == canon, "raw value differs from from_bytes(model) (padding bits or block count depend on the history)");
     need!(h(d) == h(&canon), "Hash differs from the canonical construction");
